@@ -848,3 +848,68 @@ Definition tr_bookkeeping_ok (N dim : nat) (chain row_modes tr_perm cols sol_row
 Definition tr_chain (N dim : nat) : list nat := map (fun j => (dim + j) mod N) (seq 1 (N - 1)).
 Definition tr_bookkeeping_model_ok (N dim : nat) : bool :=
   tr_bookkeeping_ok N dim (tr_chain N dim) (remove_nth dim (seq 0 N)) (tr_idx N dim) [dim; dim + 1] [dim; dim + 1] [0; 2; 1].
+
+(* ---------------------------------------------------------------- randomised_parafac: which iterations compute / record / hand over an error *)
+(* tensorly/decomposition/_cp.py:randomised_parafac, per iteration (after the updates of all modes):
+     if max_stagnation or tol or (callback is not None): rec_error = norm(tensor - cp_to_tensor(...)) / norm_tensor      <- compute
+     if max_stagnation or tol: rec_errors.append(rec_error)                                                              <- record
+     if callback is not None: if callback(cp_tensor, rec_error) is True: break                                           <- cb
+     if max_stagnation or tol: stagnation / convergence tests -> break
+   (before the loop, with a callback, rec_error is computed for the initial iterate: `e0`).  The three gates are parameters of the model;
+   the update, the callback's answer and the convergence test (it sees the recorded history) are oracles. *)
+Section RandLoop.
+Variables (St E : Type) (err : St -> E).
+Record roracle := mkR { r_update : nat -> St -> St; r_cb_stop : nat -> bool; r_conv_stop : nat -> list E -> bool }.
+Variables (Or : roracle) (compute record cb : bool).
+Fixpoint r_loop (n it : nat) (cur : St) (e0 : E) (errs : list E) (cbs : list (St * E)) : St * list E * list (St * E) :=
+  match n with
+  | 0 => (cur, errs, cbs)
+  | S n' => let st := r_update Or it cur in
+            let e := if compute then err st else e0 in
+            let errs' := if record then errs ++ [e] else errs in
+            let cbs' := if cb then cbs ++ [(st, e)] else cbs in
+            if cb && r_cb_stop Or it then (st, errs', cbs')
+            else if record && r_conv_stop Or it errs' then (st, errs', cbs')
+            else r_loop n' (S it) st e errs' cbs'
+  end.
+(* the iterates of the executed iterations *)
+Fixpoint r_states (n it : nat) (cur : St) (e0 : E) (errs : list E) : list St :=
+  match n with
+  | 0 => []
+  | S n' => let st := r_update Or it cur in
+            let e := if compute then err st else e0 in
+            let errs' := if record then errs ++ [e] else errs in
+            st :: (if cb && r_cb_stop Or it then [] else if record && r_conv_stop Or it errs' then [] else r_states n' (S it) st e errs')
+  end.
+End RandLoop.
+Arguments r_update {St E}. Arguments r_cb_stop {St E}. Arguments r_conv_stop {St E}.
+(* counts observable from outside: recorded values and in-loop callback invocations (callback stop at iteration stop_at) *)
+Definition r_loop_counts (n : nat) (stop_at : option nat) (compute record cb : bool) : nat * nat :=
+  let orc := @mkR unit unit (fun _ st => st) (fun it => match stop_at with Some j => Nat.eqb it j | None => false end) (fun _ _ => false) in
+  let r := @r_loop unit unit (fun _ => tt) orc compute record cb n 0 tt tt nil nil in
+  (length (snd (fst r)), length (snd r)).
+
+(* ---------------------------------------------------------------- the sweep with cp_normalize INSIDE it (non_negative_parafac, non_negative_parafac_hals) *)
+(* for mode in modes: mttkrp = unfolding_dot_khatri_rao(tensor, (weights, factors), mode); factors[mode] = update(...)
+                       if normalize_factors and mode != modes[-1]: weights, factors = cp_normalize((weights, factors))
+   then the shortcut with the remembered MTTKRP, paired with factors[modes[-1]].  `norm` is an oracle on the mode just updated and (weights, factors): after the
+   LAST updated mode nothing is normalised, which is what keeps the remembered MTTKRP valid. *)
+Section NormSweep.
+Context {F : Type} (Op : fops F).
+Variables (solve : nat -> tensor F -> list (tensor F) -> tensor F) (norm : nat -> @cpstate F -> @cpstate F) (normalize : bool) (X : tensor F) (R : nat).
+Definition ns_step (m : nat) (st : @cpstate F) : @cpstate F * tensor F :=
+  let Mt := mttkrp_data Op X R (fst st) (snd st) m in ((fst st, set_nth m (solve m Mt (snd st)) (snd st)), Mt).
+Fixpoint norm_sweep (ms : list nat) (st : @cpstate F) (M : option (tensor F)) : @cpstate F * option (tensor F) :=
+  match ms with
+  | [] => (st, M)
+  | m :: ms' => let r := ns_step m st in
+                let st2 := match ms' with [] => fst r | _ :: _ => if normalize then norm m (fst r) else fst r end in
+                norm_sweep ms' st2 (Some (snd r))
+  end.
+Definition norm_sweep_error (ms : list nat) (st : @cpstate F) : F * F :=
+  let r := norm_sweep ms st None in
+  match snd r with
+  | Some Mt => err_shortcut_with Op X R (fst (fst r)) (snd (fst r)) Mt (last ms 0)
+  | None => err_cp_true Op X R (fst (fst r)) (snd (fst r)) None None
+  end.
+End NormSweep.
